@@ -275,3 +275,15 @@ LEVEL_TEXT = {
         "technique": "Lean 4 proof over source-extracted definitions + differential execution",
     },
 }
+
+
+# entry-point plumbing facts (Gen/Plumbing.lean) are part of these properties' proof obligations
+for _pid in ("C02", "C03", "C04", "C05", "C06", "C07", "C08", "C09", "C10", "C12", "C13", "C14", "C15", "C17", "C18", "C19", "C20"):
+    if "Plumbing" not in PROPS[_pid].setdefault("gen", []):
+        PROPS[_pid]["gen"] = list(PROPS[_pid]["gen"]) + ["Plumbing"]
+
+COMMON_NOTE_PLUMBING = (" The file ends with `entry_points`: the argument plumbing at the call sites through which this property's workflows reach "
+                        "the modelled functions (Gen/Plumbing.lean, re-extracted each run) is what the model assumes.")
+for _pid in ("C02", "C03", "C04", "C05", "C06", "C07", "C08", "C09", "C10", "C12", "C13", "C14", "C15", "C17", "C18", "C19", "C20"):
+    if _pid in LEVEL_TEXT and COMMON_NOTE_PLUMBING not in LEVEL_TEXT[_pid].get("note", ""):
+        LEVEL_TEXT[_pid]["note"] = LEVEL_TEXT[_pid].get("note", "") + COMMON_NOTE_PLUMBING
